@@ -233,6 +233,14 @@ def r5(ctx):
             if isinstance(x, ast.Call) and (dotted(x.func) or "").startswith("self._heartbeat"):
                 created.append(dotted(x.func))
     ctx.check(sorted(created) == ["self._heartbeat_loop", "self._heartbeat_timeout_loop"], R, "start:both-loops", m, st.node, "start() creates tasks for _heartbeat_loop() and _heartbeat_timeout_loop()", ", ".join(created))
+    sp = fn_of(ctx, HEARTBEAT, "HeartbeatManager.stop")
+    subs = [(n, c) for n, c in st.calls("self._socket.subscribe_on_message_received")]
+    unsubs = [(n, c) for n, c in sp.calls("self._socket.unsubcribe_on_message_received") + sp.calls("self._socket.unsubscribe_on_message_received")]
+    ok = len(subs) == 1 and subs[0][1].args and dotted(subs[0][1].args[0]) == "self._message_received" and st.cfg.all_paths_pass(st.cfg.entry.id, [st.cfg.exit.id], [subs[0][0].id] + [st.branch(t, "true").id for t in st.tests(lambda e: dotted(e) == "self._heartbeat_tasks")], NONEXC)
+    ctx.check(ok, R, "start:subscribes-listener", m, st.node, "every (re)start subscribes self._message_received (stop() unsubscribes it, so a subscription made only once, e.g. in __init__, is lost after the first stop)", f"{len(subs)} subscribe call(s) in start()")
+    init = m.get_class("HeartbeatManager").methods.get("__init__")
+    elsewhere = [x for x in ast.walk(init) if isinstance(x, ast.Call) and (dotted(x.func) or "").endswith("subscribe_on_message_received")] if init else []
+    ctx.check(bool(unsubs) or not subs, R, "stop:unsubscribes-listener", m, sp.node, "stop() removes the listener that start() added", "no unsubscribe in stop()")
     for modname, clsname in ((AT4_API, "AirTouch4"), (AT5_API, "AirTouch5")):
         mr = fn_of(ctx, modname, f"{clsname}._message_received")
         am, g = mr.module, mr.cfg
